@@ -135,7 +135,8 @@ func (w *world) RoundTrip(req *http.Request) (*http.Response, error) {
 		}
 		r = resp{status: st, body: []byte("transient fault")}
 	}
-	if cond && ok && r.status == 200 && !hasFault {
+	// (a 304 has no body that could break off)
+	if cond && ok && r.status == 200 && (!hasFault || (flt.body && req.Method != http.MethodHead)) {
 		if inm := req.Header.Get("If-None-Match"); inm != "" && inm == r.header["etag"] {
 			r = resp{status: 304, header: r.header}
 		} else if ims := req.Header.Get("If-Modified-Since"); ims != "" && ims == r.header["last-modified"] {
@@ -151,7 +152,7 @@ func (w *world) RoundTrip(req *http.Request) (*http.Response, error) {
 		body = nil
 	}
 	var rc io.ReadCloser = io.NopCloser(bytes.NewReader(body))
-	if hasFault && flt.body && req.Method != http.MethodHead {
+	if hasFault && flt.body && req.Method != http.MethodHead && r.status != 304 {
 		rc = &brokenBody{bytes.NewReader(body[:len(body)/2])}
 	}
 	return &http.Response{
